@@ -667,6 +667,43 @@ func c16Judge(env *Env, c *Case, init []world.FileState, pilot, r *RunResult, cl
 			}
 		}
 	}
+	// ---- 2c. a failure inside the per-file loop leaves no file out silently -------
+	// Once gopatch has begun processing targets, a file it fails on must not take
+	// others down with it unnoticed: every file the fault-free run patches is
+	// afterwards either patched or named on stderr. (Failures before the loop -
+	// loading patches, enumerating paths - abort the run as a whole, and a dead
+	// output stream ends a preview; those are not judged here.)
+	if !stderrFaulted && class != "stdout" && class != "stderr" {
+		targets := map[string]bool{}
+		for _, f := range c.Files {
+			targets[f.Path] = true
+		}
+		loopBegun := false
+		for _, o := range r.Log {
+			if o.Seq >= first.Seq {
+				break
+			}
+			if o.Name == "open" && targets[o.Path] {
+				loopBegun = true
+			}
+		}
+		if targets[first.Path] && (first.Name == "open" || first.Name == "read") {
+			loopBegun = true
+		}
+		if loopBegun {
+			env.Probe("fault-inside-file-loop")
+			for _, p := range paths {
+				g, ok := got[p]
+				if !ok || !bytes.Equal(g.Data, orig[p].Data) || bytes.Equal(orig[p].Data, want[p].Data) {
+					continue
+				}
+				if !namesPath(c, string(r.Stderr), p) {
+					add("reported", "left-out-silently/"+class, fmt.Sprintf("%s %s failed (%s); %s, which the fault-free run patches, was left unpatched and stderr does not name it: %q", first.Name, first.Path, first.Err, p, clip(string(r.Stderr), 400)))
+					break
+				}
+			}
+		}
+	}
 	// ---- 2. reported ----------------------------------------------------------
 	if mustReport && mustReportClass(class) {
 		stderr := string(r.Stderr)
